@@ -162,20 +162,38 @@ func VH_outcome(class int) {
 	}
 }
 
-// VH_input: two reads of stdin; the kernel may hand over the lines in chunks of any size.
+// stdin lines: text with surrounding blanks, blanks only, empty, plain
+var inputPool = []string{"  a b \t", " \t ", "", "x"}
+
+// VH_input: two reads of stdin of nlines lines drawn from the pool, with or without a final
+// newline; the kernel may hand the lines over in chunks of any size.
 func VH_input(nlines int, finalNL int) {
+	lines := make([]string, nlines)
+	for i := 0; i < nlines; i++ {
+		lines[i] = inputPool[verifChoice(len(inputPool))]
+	}
+	if finalNL == 0 {
+		if nlines > 0 {
+			// an unterminated last line exists only if it has at least one byte
+			verifAssume(lines[nlines-1] != "")
+		}
+	}
 	verifSetArgs("borno", "a.bn")
 	verifSetFile(true, progInput2)
-	verifSetStdin(nlines, finalNL == 1)
+	verifSetStdinText(lines...)
+	verifSetStdinFinalNewline(finalNL == 1)
 	verifRunMain()
 	out, errText, status := verifProcStdout(), verifProcStderr(), verifProcExit()
 	if nlines >= 2 {
 		// the program prints what it read: print writes the NFC form of the text
-		want := norm.NFC.String(strings.TrimSpace(verifStdinLine(0))) + "\n" + "p> " + norm.NFC.String(strings.TrimSpace(verifStdinLine(1))) + "\n"
+		want := norm.NFC.String(strings.TrimSpace(lines[0])) + "\n" + "p> " + norm.NFC.String(strings.TrimSpace(lines[1])) + "\n"
 		verifAssert("each-read-consumes-exactly-the-next-line", out == want)
 		verifAssert("reads-succeed", status == 0 && errText == "")
 	} else {
 		verifAssert("reading-past-end-of-input-is-a-runtime-error", status == 70)
+		if nlines == 1 {
+			verifAssert("first-read-still-printed", out == norm.NFC.String(strings.TrimSpace(lines[0]))+"\n"+"p> ")
+		}
 	}
 }
 
@@ -188,6 +206,7 @@ var replPool = []string{
 	"x;",                                    // runtime error (undefined)
 	"\u09a7\u09b0\u09bf y = 5;",              // declaration: no echo
 	"\u09b2\u09c7\u09a8([1, 2, 3]);",         // built-in, echo
+	"\u09b2\u09c7\u09a8 = 0;",                // assignment to a built-in's name (the parser allows it): echo
 }
 
 // VH_repl: a session of k lines from the pool; each line's response must be what the same
